@@ -1,7 +1,89 @@
-//! IchimokuCloud — reference model (TODO).
+//! Ichimoku Cloud. Doc: 4 values — `Tenkan Sen`, `Kijun Sen`, `Senkou Span A`, `Senkou Span B`;
+//! linked formula (wikipedia):
+//!     Tenkan Sen    = (highest high + lowest low)/2 over the last l1 candles,
+//!     Kijun Sen     = (highest high + lowest low)/2 over the last l2 candles,
+//!     Senkou Span A = (Tenkan Sen + Kijun Sen)/2, plotted m candles ahead,
+//!     Senkou Span B = (highest high + lowest low)/2 over the last l3 candles, plotted m candles ahead
+//!   ("plotted m ahead": the span values seen at candle t are the ones computed at candle t − m).
+//! 2 signals:
+//!   #0 Tenkan crosses Kijun upwards ∧ source > both spans ∧ span A > span B: full buy;
+//!      Tenkan crosses Kijun downwards ∧ source < both spans ∧ span A < span B: full sell.
+//!   #1 the same with "source crosses Kijun" as the crossing.
 use super::*;
 
-/// returns None until the reference is written
-pub fn make(_cfg: &Cfg, _c0: &RC) -> Option<Box<dyn IndRef>> {
-	None
+#[derive(Clone)]
+pub struct IchimokuCloud {
+	src: String,
+	m: usize,
+	hi: [Ext; 3],
+	lo: [Ext; 3],
+	span_a: crate::Ser,
+	span_b: crate::Ser,
+	x_tk: CrossD,
+	x_sk: CrossD,
+}
+
+/// the source as a plain number (for the exact evaluation of the signal rule)
+fn src_f64(c: &RC, kind: &str) -> f64 {
+	match kind {
+		"close" => c.c,
+		"open" => c.o,
+		"high" => c.h,
+		"low" => c.l,
+		"hl2" => (c.h + c.l) * 0.5,
+		"tp" => (c.h + c.l + c.c) / 3.0,
+		"volume" => c.v,
+		"volumed_price" => (c.h + c.l + c.c) / 3.0 * c.v,
+		o => panic!("unknown source {o}"),
+	}
+}
+
+fn mid(h: f64, l: f64) -> Q {
+	(Q::exact(h) + Q::exact(l)).scale(0.5)
+}
+
+pub fn make(cfg: &Cfg, c0: &RC) -> Option<Box<dyn IndRef>> {
+	let src = cfg.src("source");
+	let m = cfg.int("m");
+	let ls = [cfg.int("l1"), cfg.int("l2"), cfg.int("l3")];
+	// constant prehistory: every highest high is c0.high, every lowest low c0.low, all four lines equal
+	// (high + low)/2
+	let m0 = mid(c0.h, c0.l);
+	Some(Box::new(IchimokuCloud {
+		hi: [Ext::new(ls[0], c0.h), Ext::new(ls[1], c0.h), Ext::new(ls[2], c0.h)],
+		lo: [Ext::new(ls[0], c0.l), Ext::new(ls[1], c0.l), Ext::new(ls[2], c0.l)],
+		span_a: crate::Ser::with_cap(m0, m + 2),
+		span_b: crate::Ser::with_cap(m0, m + 2),
+		// previous differences in the prehistory: Tenkan − Kijun = 0, source − Kijun = source − (high + low)/2
+		x_tk: CrossD::new(0.0),
+		x_sk: CrossD::new(src_f64(c0, &src) - m0.v),
+		src,
+		m,
+	}))
+}
+
+impl IndRef for IchimokuCloud {
+	fn values(&mut self, c: &RC) -> Vec<Q> {
+		let mut line = [Q::exact(0.0); 3];
+		for i in 0..3 {
+			self.hi[i].push(c.h);
+			self.lo[i].push(c.l);
+			line[i] = mid(self.hi[i].highest(), self.lo[i].lowest());
+		}
+		let (tenkan, kijun) = (line[0], line[1]);
+		self.span_a.push((tenkan + kijun).scale(0.5));
+		self.span_b.push(line[2]);
+		vec![tenkan, kijun, self.span_a.back(self.m), self.span_b.back(self.m)]
+	}
+	fn signals(&mut self, c: &RC, own: &[f64]) -> Vec<Sig> {
+		let s = src_f64(c, &self.src);
+		let (tenkan, kijun, a, b) = (own[0], own[1], own[2], own[3]);
+		let bullish = s > a && s > b && a > b;
+		let bearish = s < a && s < b && a < b;
+		let x0 = self.x_tk.cross(tenkan, kijun);
+		let x1 = self.x_sk.cross(s, kijun);
+		let rule = |x: i32| sig_sign((bullish && x > 0) as i32 - (bearish && x < 0) as i32);
+		vec![rule(x0), rule(x1)]
+	}
+	indref!(IchimokuCloud);
 }
